@@ -6,6 +6,7 @@ CONSTANTS LgMaxK = 2
  PromoteCount <- PC2
  FixedIsEmpty = TRUE
  FixedReset = FALSE
-INVARIANT ResultOK EmptyOK CountersOK UInvOK
+ FixedDownsampleKxq = TRUE
+INVARIANT ResultOK EmptyOK CountersOK HipOK UInvOK
 PROPERTY Refines
 CHECK_DEADLOCK FALSE
